@@ -79,12 +79,54 @@ def membership_facts(prog, body, ix):
     return out
 
 
+def loop_membership(prog, body, ix, mem):
+    """Loop form of `proxies.iter().any(|p| list.contains(p))`: `for p in &address.proxies { if list.contains(p) { <leave> } }`.
+    Returns {switch block of the loop's next(): fields} such that on that switch's None edge (the loop ran out) no element was listed."""
+    out = {}
+    for nb, t in body.calls_to(r"Iterator>?::next$|Iterator::next$"):
+        recv = describe(prog, body, t["args"][0])
+        fields = address_fields_in(recv, ix)
+        if not fields:
+            continue
+        cyc = {x for x in body.reachable(body.succs(nb)) if nb in body.reachable([x])} | {nb}
+        tests = []
+        for s_ in cyc:
+            tt = body.term(s_)
+            if not tt or tt["k"] != "switch" or tt.get("discr_ty") != "bool":
+                continue
+            d = core.describe(prog, body, tt["discr"])
+            for c in core.desc_calls(d):
+                blk = c[3] if len(c) > 3 else None
+                if blk is None:
+                    continue
+                arg = is_membership(prog, body, body.term(blk), ix)
+                if arg is not None and desc_contains(arg, lambda y: y[0] == "call" and len(y) > 3 and y[3] == nb):
+                    info = core.switch_info(prog, body, s_)
+                    # listed -> the loop is left (the true edge never comes back to next())
+                    if nb not in body.reachable([info["edges"]["true"]], removed_nodes=[]) or info["edges"]["true"] not in cyc:
+                        tests.append(s_)
+        if tests:
+            # every cycle of the loop passes one of the tests
+            if core.must_pass(body, [nb], [nb], through_nodes=tests) is None:
+                for e in some_edges(prog, body, nb, "None"):
+                    out[e[0]] = fields
+    return out
+
+
+def some_edges(prog, body, call_block, variant):
+    from .c01 import some_edge_of
+    return some_edge_of(prog, body, call_block, variant)
+
+
 def not_listed_fields(prog, body, blk, ix, mem, wrappers):
     """Address fields known not to be on the blacklist at block blk (union over dominating guards)."""
     fields = set()
+    loops = loop_membership(prog, body, ix, mem)
     for s, lab, d, info in core.guards_dominating(prog, body, blk):
         if s in mem and lab == "false":
             fields |= mem[s]
+        if s in loops and lab == "None":
+            fields |= loops[s]
         # None edge of a wrapper's result
         if lab == "None" and info.get("src") is not None:
             src = core.describe(prog, body, {"k": "copy", "pl": info["src"]})
